@@ -77,8 +77,14 @@ type Snapshot struct {
 func takeSnapshot(b *biscuit.Biscuit, pub []byte, p *Panel) Snapshot {
 	var s Snapshot
 	pi := lib.Try(func() {
-		s.String = b.String()
+		// Code() is observed before and after String(): printing is an operation like any other
+		// and must not re-order or otherwise change what the token holds
 		s.Code = b.Code()
+		s.String = b.String()
+		if again := b.Code(); core.JSON(again) != core.JSON(s.Code) {
+			s.Err = fmt.Sprintf("Code() differs before and after String(): %v, then %v", s.Code, again)
+			return
+		}
 		ser, err := b.Serialize()
 		if err != nil {
 			s.Err = "serialize: " + err.Error()
